@@ -147,7 +147,7 @@ def run(ctx):
         ty, shape = t
         hcmd = [exe, ty]
         dcmd = [sys.executable, feed, RNG_OPS, exe, ty, "--", drv, *shape]
-        return core.correspond(ctx, f"K-C12[{ty}]", cases, hcmd, dcmd, classify, keep_prefix=0, env=dsgen.ASAN_ENV)
+        return core.correspond(ctx, f"K-C12[{ty}]", cases, hcmd, dcmd, classify, keep_prefix=0, env=dsgen.ASAN_ENV, timeout=900 if ctx.quick else 3600)
     dsgen.run_types(one, dsgen.types(TYPES, 'VERIF_C12_TYPES'))
 
 
